@@ -225,3 +225,27 @@ Example C19_nonvacuous :
   lookup 2 (gc_int (go_cls_of true (match norm ex_t with TMsg _ fs => fs | _ => [] end))) =
     Some {| gi_depth := 0; gi_d := 3 |}.
 Proof. vm_compute. repeat split; reflexivity. Qed.
+
+(* the statements are for ANY number of array dimensions: a field with six dimensions through
+   aliases (the emitted accessors then index di.I(0) .. di.I(5)), and two arrays whose bit totals
+   differ exactly by the 16-bit prefix (uint3[8]' / uint5[8]) keep distinct processors *)
+Definition ex_deep6 : ty :=
+  TAlias (TArr false 1 (TAlias (TArr true 2 (TAlias (TArr false 1 (TAlias (TArr false 2
+    (TAlias (TArr true 1 (TAlias (TArr false 2 (TInt 13)))))))))))).
+Definition ex_t2 : ty := TMsg false [(4, ex_deep6); (2, TArr true 8 (TUint 3)); (3, TArr false 8 (TUint 5))].
+Definition ex_v2 : val :=
+  VM [(4, VL [VL [VL [VL [VL [VL [VZ (-4096); VZ 4095]]; VL [VL [VZ 1; VZ (-1)]]]];
+                  VL [VL [VL [VL [VZ 0; VZ 7]]; VL [VL [VZ (-2); VZ 2]]]]]]);
+      (2, VL [VZ 1; VZ 2; VZ 3; VZ 4; VZ 5; VZ 6; VZ 7; VZ 0]);
+      (3, VL [VZ 31; VZ 2; VZ 3; VZ 4; VZ 5; VZ 6; VZ 7; VZ 0])].
+Example C19_nonvacuous_deep :
+  shape_ok (norm ex_t2) = true /\ wf (norm ex_t2) = true /\ has_ty (norm ex_t2) ex_v2 = true /\
+  arr_layers ex_deep6 = 6%nat /\
+  lookup 4 (gc_set (go_cls_of false [(4, ex_deep6)])) =
+    Some {| gs_depth := 6; gs_conv := GInt 16; gs_kind := GSOr |} /\
+  lookup 4 (gc_int (go_cls_of false [(4, ex_deep6)])) = Some {| gi_depth := 6; gi_d := 3 |} /\
+  go_encode ex_t2 ex_v2 = Ok (wire ex_t2 ex_v2) /\
+  go_decode ex_t2 (wire ex_t2 ex_v2) = Ok (canon (norm ex_t2) ex_v2) /\
+  gskel (go_proc_of (TArr true 8 (TUint 3))) <> gskel (go_proc_of (TArr false 8 (TUint 5))) /\
+  nbits (TArr true 8 (TUint 3)) = nbits (TArr false 8 (TUint 5)).
+Proof. vm_compute. repeat split; try reflexivity. discriminate. Qed.
